@@ -71,6 +71,173 @@ def roundtrip(case):
     return out
 
 
+def lexinfo(res):
+    return [[L['id'], L['version'], L['label'],
+             (L.get('extends') or {}).get('id', '~'), (L.get('extends') or {}).get('version', '~')]
+            for L in res['lexicons']]
+
+
+def mutants(case):
+    """C20: single-fault mutations of a valid document"""
+    import random
+    from harness import mutate, storeobs
+    res = case['res']
+    v = res['lmf_version']
+    rng = random.Random(case['seed'])
+    text = lmfgen.to_xml(res)
+    d = base_dir()
+    base = d / 'orig.xml'
+    base.write_text(text, encoding='utf-8')
+    orig = docs.flat(lmf.load(base, progress_handler=None))
+    muts = [({'kind': 'none', 'elem': '~', 'attr': '~'}, text),
+            ({'kind': 'requote', 'elem': '~', 'attr': '~'}, lmfgen.to_xml(res, quote="'")),
+            ({'kind': 'reorder', 'elem': '~', 'attr': '~'},
+             lmfgen.to_xml(res, attr_order=lambda ps: list(reversed(ps))))]
+    muts += mutate.mutations(text, v, rng, per_kind=case.get('per_kind', 2))
+    out = []
+    for k, (m, txt) in enumerate(muts):
+        p = d / f'mut{k}.xml'
+        p.write_text(txt, encoding='utf-8')
+        r = {'id': f"{case['id']}.{k}", 'v': v, 'm': m, 'orig': orig}
+        try:
+            got = lmf.load(p, progress_handler=None)
+            r['load'] = 'ok'
+            r['loaded'] = docs.flat(got)
+        except JobTimeout:
+            raise
+        except Exception as e:
+            r['load'] = 'exc:' + exc_name(e)
+            r['loaded'] = docs.flat({'lexicons': []})
+        fresh_db('c20')
+        storeobs.conn()
+        before = storeobs.raw_sha()
+        try:
+            wn.add(p, progress_handler=None)
+            r['add'] = 'ok'
+        except JobTimeout:
+            raise
+        except Exception as e:
+            r['add'] = 'exc:' + exc_name(e)
+        r['db_unchanged'] = storeobs.raw_sha() == before
+        try:
+            r['is_lmf'] = bool(lmf.is_lmf(p))
+            r['is_lmf_st'] = 'ok'
+        except JobTimeout:
+            raise
+        except Exception as e:
+            r['is_lmf'] = False
+            r['is_lmf_st'] = 'exc:' + exc_name(e)
+        try:
+            sc = lmf.scan_lexicons(p)
+            r['scan_st'] = 'ok'
+            r['scan'] = [[i['id'], i['version'], i['label'] if i.get('label') is not None else '~',
+                          (i.get('extends') or {}).get('id', '~'),
+                          (i.get('extends') or {}).get('version', '~')] for i in sc]
+        except JobTimeout:
+            raise
+        except Exception as e:
+            r['scan_st'] = 'exc:' + exc_name(e)
+            r['scan'] = []
+        out.append(r)
+    return out
+
+
+def content(case):
+    """C01: add the document, observe every non-extension lexicon through the API"""
+    import wn._add
+    from harness import apiobs
+    res = case['res']
+    d = base_dir()
+    p = d / 'content.xml'
+    p.write_text(lmfgen.to_xml(res, **case.get('writer', {})), encoding='utf-8')
+    fresh_db('c01')
+    old = wn._add.BATCH_SIZE
+    wn._add.BATCH_SIZE = case.get('batch', old)
+    out = []
+    try:
+        try:
+            wn.add(p, progress_handler=None)
+            st = 'ok'
+        except JobTimeout:
+            raise
+        except Exception as e:
+            st = 'exc:' + exc_name(e) + ':' + str(e)[:100]
+        src = docs.flat(res)
+        for li, L in enumerate(res['lexicons']):
+            if L.get('extends'):
+                continue
+            spec = f"{L['id']}:{L['version']}"
+            r = {'id': f"{case['id']}.{li}", 'li': li, 'spec': spec, 'src': src, 'st': st,
+                 'batch': case.get('batch', old)}
+            if st == 'ok':
+                try:
+                    r['api'] = apiobs.observe_api(spec)
+                except JobTimeout:
+                    raise
+                except Exception as e:
+                    r['st'] = 'exc-observe:' + exc_name(e) + ':' + str(e)[:100]
+            out.append(r)
+    finally:
+        wn._add.BATCH_SIZE = old
+    return out
+
+
+def export_case(case):
+    """C03: add, export in every version, load the export, add it to an empty database"""
+    from harness import apiobs
+    res = case['res']
+    d = base_dir()
+    p = d / 'src.xml'
+    p.write_text(lmfgen.to_xml(res), encoding='utf-8')
+    d1 = fresh_db('c03a')
+    out = {'id': case['id'], 'src': docs.flat(res), 'src_version': res['lmf_version'], 'exports': []}
+    try:
+        wn.add(p, progress_handler=None)
+        out['st'] = 'ok'
+    except JobTimeout:
+        raise
+    except Exception as e:
+        out['st'] = 'exc:' + exc_name(e) + ':' + str(e)[:100]
+        out['api_digest'] = '~'
+        return out
+    scope = ' '.join(f"{L['id']}:{L['version']}" for L in res['lexicons'])
+
+    def digest():
+        a = apiobs.observe_api(scope)
+        return hashlib.sha256(json.dumps(a, sort_keys=True, ensure_ascii=False).encode()).hexdigest()[:16]
+    out['api_digest'] = digest()
+    files = {}
+    for v in case['versions']:
+        row = {'v': v}
+        f = d / f'export-{v}.xml'
+        try:
+            wn.export(wn.lexicons(lexicon=scope), f, version=v)
+            got = lmf.load(f, progress_handler=None)
+            row['st'] = 'ok'
+            row['got'] = docs.flat(got)
+            files[v] = f
+        except JobTimeout:
+            raise
+        except Exception as e:
+            row.update({'st': 'exc:' + exc_name(e) + ':' + str(e)[:100],
+                        'got': docs.flat({'lexicons': []})})
+        out['exports'].append(row)
+    for row in out['exports']:
+        row['readd'] = '~'
+        row['api_digest'] = '~'
+        if row['v'] in files:
+            fresh_db('c03b')
+            try:
+                wn.add(files[row['v']], progress_handler=None)
+                row['readd'] = 'ok'
+                row['api_digest'] = digest()
+            except JobTimeout:
+                raise
+            except Exception as e:
+                row['readd'] = 'exc:' + exc_name(e) + ':' + str(e)[:100]
+    return out
+
+
 def handle(job):
     outs = []
     for case in job['cases']:
@@ -78,6 +245,12 @@ def handle(job):
             with limit(case.get('timeout', 60)):
                 if job['mode'] == 'roundtrip':
                     outs.append(roundtrip(case))
+                elif job['mode'] == 'mutants':
+                    outs.extend(mutants(case))
+                elif job['mode'] == 'content':
+                    outs.extend(content(case))
+                elif job['mode'] == 'export':
+                    outs.append(export_case(case))
                 else:
                     raise ValueError(job['mode'])
         except JobTimeout:
